@@ -81,6 +81,14 @@ def _run_variant(job: dict) -> dict:
                         except SyntaxError:
                             pass
             files = []
+        elif job["kind"] == "transform":
+            from . import transforms
+            n_rw = transforms.apply(tmp, tuple(job["which"]))
+            if n_rw == 0:
+                res["status"] = "table-error"
+                res["why"] = "the transformation rewrote nothing"
+                return res
+            files = []
         else:
             path = os.path.join(tmp, job["file"])
             if not os.path.exists(path):
@@ -134,6 +142,12 @@ def jobs_for(prop: str, root: str) -> list[dict]:
     if prop in table.MUTANTS or prop in table.SEEDS:
         out.append({"prop": prop, "root": root, "kind": "unparse", "expect": None,
                     "name": "benign: every source file re-printed by ast.unparse (layout, comments, parentheses, string quoting gone)"})
+        # mechanical whole-tree refactorings (gsa/selftest/transforms.py; each reproduces the golden error files like HEAD does)
+        for which, what in ((("rename",), "every local variable of every function renamed"),
+                            (("invert",), "every if/else and conditional expression written the other way round, trailing ifs turned into guard clauses"),
+                            (("reorder",), "runs of undecorated methods / top-level functions reversed"),
+                            (("reorder", "invert", "rename"), "all three mechanical transformations together")):
+            out.append({"prop": prop, "root": root, "kind": "transform", "which": list(which), "expect": None, "name": f"benign: {what}"})
     bd = os.path.join(VERIF_DIR, "benign")
     if os.path.isdir(bd):
         for name in sorted(os.listdir(bd)):
